@@ -167,8 +167,9 @@ static const unsigned SENT = 0x55;   // previous content of the destination
 // returns false when the case is outside the contract of the policy (a disabled check whose condition holds,
 // undefined shifts, special values fed to an operation that does not handle them): no oracle verdict then.
 static bool exact_of(const Env& en, Op op, bool ext_api, const mpz_class& x, const mpz_class& y, const mpz_class& z,
-                     unsigned e, Ex& out) {
+                     unsigned e, Ex& out, bool plain_factors = false) {
   SV sx = decode(en, x), sy = decode(en, y), sz = decode(en, z);
+  if (plain_factors) { sx.kind = 0; sy.kind = 0; }     // operands of a native type: every bit pattern is a number
   int ar = op_arity(op);
   bool spec = sx.kind != 0 || (ar == 2 || ar == 3 ? sy.kind != 0 : false) || (ar == 3 ? sz.kind != 0 : false);
   if (spec && !ext_api) return false;            // the native primitives are never handed special values
@@ -187,6 +188,10 @@ static bool exact_of(const Env& en, Op op, bool ext_api, const mpz_class& x, con
       if (kx && ky) return false;
       if (kx) { if (sgy == 0) return false; out = Ex(kx * sgy); return true; }
       out = Ex(mpq_class(0)); return true;
+    case O_ADD_MUL: case O_SUB_MUL:
+      // a special accumulator with finite factors: the accumulator's infinity survives
+      if (kx || ky) return false;
+      out = Ex(sz.kind); return true;
     default: return false;        // other operations on special values: compared with the model only
     }
   }
@@ -335,6 +340,17 @@ template <typename T, typename P> struct Call<T, P, 2> {
   }
 };
 
+// mixed: an extended (Checked_Number<T, P>) ACCUMULATOR with factors of the plain native type (their policy,
+// Checked_Number_Transparent_Policy, has neither infinities nor NaN): add_mul_assign_r / sub_mul_assign_r only
+template <typename T, typename P> struct Call<T, P, 3> {
+  static Result run(Op op, T& to_raw, T x, T y, unsigned, Rounding_Dir d) {
+    Checked_Number<T, P> to; to.raw_value() = to_raw;
+    Result r = (op == O_ADD_MUL) ? add_mul_assign_r(to, x, y, d) : sub_mul_assign_r(to, x, y, d);
+    to_raw = to.raw_value();
+    return r;
+  }
+};
+
 struct Tuple { mpz_class x, y, z; unsigned e; };
 static std::vector<Tuple> vec_tuples;
 
@@ -375,7 +391,7 @@ static void one(const Env& en, Op op, unsigned dir, const mpz_class& zx, const m
   if (op == O_CMP || op == O_CLASSIFY) { std::cout << "0," << (unsigned)r; return; }
   std::cout << s << "," << (unsigned)r;
   Ex ex;
-  if (exact_of(en, op, EXT != 0, zx, zy, z_in, e, ex)) {
+  if (exact_of(en, op, EXT != 0, zx, zy, z_in, e, ex, EXT == 3)) {
     const char* why = oracle(en, (unsigned)r, dir, ex, s);
     if (why) {
       std::cerr << "O " << n_block << " " << op_name[op] << " " << (en.sgn ? 1 : 0) << " " << fail_class(en, op, zx, zy, z_in)
@@ -407,7 +423,7 @@ static void block(const char* pname, Op op, unsigned dir) {
   Env en = make_env<T, P>();
   int ar = op_arity(op);
   if (vec_mode) {
-    header<T, P>(pname, (EXT == 2 ? "native" : EXT ? "ext" : "direct"), op, dir);
+    header<T, P>(pname, (EXT == 3 ? "mixed" : EXT == 2 ? "native" : EXT ? "ext" : "direct"), op, dir);
     for (size_t i = 0; i < vec_tuples.size(); ++i) {
       const Tuple& t = vec_tuples[i];
       one<T, P, EXT>(en, op, dir, t.x, t.y, t.z, t.e);
@@ -417,7 +433,7 @@ static void block(const char* pname, Op op, unsigned dir) {
   }
   const int lo = TI<T>::sgn ? -128 : 0, hi = TI<T>::sgn ? 127 : 255;
   if (ar == 1 || ar == 4) {
-    header<T, P>(pname, (EXT == 2 ? "native" : EXT ? "ext" : "direct"), op, dir);
+    header<T, P>(pname, (EXT == 3 ? "mixed" : EXT == 2 ? "native" : EXT ? "ext" : "direct"), op, dir);
     unsigned ne = (ar == 4) ? 11 : (op == O_CLASSIFY) ? 8 : 1;
     for (unsigned e = 0; e < ne; ++e) {
       for (int x = lo; x <= hi; ++x) { one<T, P, EXT>(en, op, dir, x, 0, 0, e); std::cout << " "; }
@@ -425,7 +441,7 @@ static void block(const char* pname, Op op, unsigned dir) {
     }
   }
   else if (ar == 2) {
-    header<T, P>(pname, (EXT == 2 ? "native" : EXT ? "ext" : "direct"), op, dir);
+    header<T, P>(pname, (EXT == 3 ? "mixed" : EXT == 2 ? "native" : EXT ? "ext" : "direct"), op, dir);
     for (int x = lo; x <= hi; ++x) {
       for (int y = lo; y <= hi; ++y) { one<T, P, EXT>(en, op, dir, x, y, 0, 0); std::cout << " "; }
       std::cout << "\n";
@@ -433,8 +449,13 @@ static void block(const char* pname, Op op, unsigned dir) {
   }
   else {
     std::vector<int> zs = z_values(TI<T>::sgn);
+    if (EXT == 3 && !thorough) {        // the accumulator values that encode -inf, NaN, +inf (and two plain ones)
+      zs.clear();
+      if (TI<T>::sgn) { zs.push_back(-128); zs.push_back(-127); zs.push_back(0); zs.push_back(127); }
+      else { zs.push_back(0); zs.push_back(253); zs.push_back(254); zs.push_back(255); }
+    }
     for (size_t k = 0; k < zs.size(); ++k) {
-      header<T, P>(pname, (EXT == 2 ? "native" : EXT ? "ext" : "direct"), op, dir, itos(zs[k]));
+      header<T, P>(pname, (EXT == 3 ? "mixed" : EXT == 2 ? "native" : EXT ? "ext" : "direct"), op, dir, itos(zs[k]));
       for (int x = lo; x <= hi; ++x) {
         for (int y = lo; y <= hi; ++y) { one<T, P, EXT>(en, op, dir, x, y, zs[k], 0); std::cout << " "; }
         std::cout << "\n";
@@ -450,6 +471,7 @@ static const unsigned DIRS[] = { 1u /*UP*/, 0u /*DOWN*/, 6u /*IGNORE*/, 7u /*NOT
 // one policy of each flag set (the other two policies have identical flags) and a reduced one for the twins.
 static bool want(int pidx, int api, Op op, unsigned dir) {
   bool ext = api != 0;
+  if (api == 3) return (op == O_ADD_MUL || op == O_SUB_MUL) && (pidx == 1 || pidx == 2) && (thorough || vec_mode || pidx == 1 || dir == 1u);
   if (api == 2) return pidx == 0 && op != O_CMP && op != O_CLASSIFY && (thorough || vec_mode || dir == 1u || op == O_LCM);
   if (vec_mode) return op != O_CLASSIFY && op != O_CMP ? true : ext;
   if (thorough) return true;
@@ -477,6 +499,7 @@ static void policy_blocks(const char* pname, int pidx) {
       if (want(pidx, 0, op, DIRS[k])) block<T, P, 0>(pname, op, DIRS[k]);
       if (want(pidx, 1, op, DIRS[k])) block<T, P, 1>(pname, op, DIRS[k]);
       if (want(pidx, 2, op, DIRS[k])) block<T, P, 2>(pname, op, DIRS[k]);
+      if (want(pidx, 3, op, DIRS[k])) block<T, P, 3>(pname, op, DIRS[k]);
     }
   }
 }
